@@ -534,6 +534,16 @@ class Contract:
 
     effect_asserts = ()
 
+    def closure(self, name, ty):
+        """a free variable of a nested function under contract (a closure): verified for an arbitrary value of that
+        type, which is also a binding the clauses may mention"""
+        if "closure_vars" not in self.__dict__:
+            self.closure_vars = {}
+        self.closure_vars[name] = ty
+        return self
+
+    closure_vars = {}
+
     def on_write(self, field, cid, lam):
         """lam(self, old_value, new_value, ...) must hold at every assignment `self.<field> = ...` made by this
         function (checked at the moment of the write, i.e. against the state the write actually replaces --
